@@ -32,6 +32,7 @@ def handle (line : String) : String :=
   | "serde" :: "de" :: args => deCmd ("de" :: args)
   | "serde" :: "fromvalm" :: args => deCmd ("fromvalm" :: args)
   | "serde" :: "fromobj" :: args => deCmd ("fromobj" :: args)
+  | ["serde", "sj", v, tab] => deCmd ["sj", v, tab]
   | "serde" :: args => serdeCmd args
   | "macro" :: args => macroCmd args
   | _ => "bad-op"
